@@ -156,6 +156,7 @@ func c03Sequential(r *core.Run) {
 			s.Mint(q, "exact")
 		}
 		c03PaidThenLapsed()
+		s.DirectedOwnInvoice(mpp) // own invoices in both spellings, plain and partial: never PAID for less
 		for i := 0; i < nops && r.Violations() < 10; i++ {
 			if i == nops/2 {
 				c03Watchers() // again with a longer list of invoices behind the node
